@@ -134,12 +134,15 @@ def run(eng: Engine, ck: Check):
         pp = has(lambda e, pol: (cmp_atom(e) or ('',))[0] == 'in' and not pol and mentions_attr(cmp_atom(e)[2], 'potential_parents')
                  and mentions_attr(cmp_atom(e)[1], 'username'))
         acc = has(lambda e, pol: pol and isinstance(e, ast.Attribute) and e.attr == '_accept_children')
-        mx = has(lambda e, pol: (cmp_atom(e) or ('',))[0] in ('ge', 'lt', 'gt', 'le') and mentions_attr(e, '_max_children') and
-                 mentions_attr(e, 'children') and (
-                     (cmp_atom(e)[0] == 'ge' and not pol and 'len(' in unparse(cmp_atom(e)[1]) and mentions_attr(cmp_atom(e)[2], '_max_children')) or
-                     (cmp_atom(e)[0] == 'lt' and pol and 'len(' in unparse(cmp_atom(e)[1]) and mentions_attr(cmp_atom(e)[2], '_max_children')) or
-                     (cmp_atom(e)[0] == 'gt' and pol and mentions_attr(cmp_atom(e)[1], '_max_children') and 'len(' in unparse(cmp_atom(e)[2])) or
-                     (cmp_atom(e)[0] == 'le' and not pol and mentions_attr(cmp_atom(e)[1], '_max_children') and 'len(' in unparse(cmp_atom(e)[2]))))
+        def below_max(e, pol):
+            a = cmp_atom_diff(e)
+            if not a or a[0] not in ('ge', 'lt', 'gt', 'le') or not mentions_attr(e, '_max_children') or not mentions_attr(e, 'children'):
+                return False
+            ln = lambda x: 'len(' in unparse(x) and mentions_attr(x, 'children')
+            mxa = lambda x: mentions_attr(x, '_max_children') and 'len(' not in unparse(x)
+            return (a[0] == 'ge' and not pol and ln(a[1]) and mxa(a[2])) or (a[0] == 'lt' and pol and ln(a[1]) and mxa(a[2])) or \
+                (a[0] == 'gt' and pol and mxa(a[1]) and ln(a[2])) or (a[0] == 'le' and not pol and mxa(a[1]) and ln(a[2]))
+        mx = has(below_max)
         nreq = has(lambda e, pol: (not pol) and isinstance(e, ast.Attribute) and e.attr == 'requested')
         ck.ob('R-C13-ADMIT', f, call, 'a child is admitted only if its name is not among the potential parents the server proposed', pp,
               'guard `peer.username in self.potential_parents -> reject` does not dominate the append', construct='admit: not potential parent')
